@@ -908,6 +908,16 @@ func (q *checker) bcheckVar(n *a.Var) error {
 		return err
 	}
 
+	// Every element of a local array is zero-initialized too (just like struct
+	// fields, see checkFields), so zero must be a valid element value.
+	if inner := n.XType().Innermost(); (inner != n.XType()) && inner.IsNumType() {
+		ib := inner.AsNode().MBounds()
+		if (ib[0] != nil) && (ib[1] != nil) && ((zero.Cmp(ib[0]) < 0) || (zero.Cmp(ib[1]) > 0)) {
+			return fmt.Errorf("check: default zero value is not within bounds %v for var %q",
+				ib, n.Name().Str(q.tm))
+		}
+	}
+
 	lhs := a.NewExpr(0, 0, n.Name(), nil, nil, nil, nil)
 	lhs.SetMType(n.XType())
 	// "var x T" has an implicit "= 0".
